@@ -22,6 +22,7 @@ THEOREMS = [
     ("EG.props.C08", "C08_checker_accepts_model"),
     ("EG.props.C08", "C08_wrapper_one_record_per_call"),
     ("EG.props.C08", "C08_wrapper_context_independent"),
+    ("EG.props.C08", "C08_instances_independent"),
     ("EG.props.C08", "C08_short_circuit_is_503"),
     ("EG.props.C08", "C08_short_circuit_every_shape"),
     ("EG.props.C08", "C08_nonvacuous"),
@@ -41,8 +42,8 @@ HARNESSES = [
          run="TestVerifC08Proxy", groups=["pool"], timeout=600, share=0.1,
          extra_overlay={"pkg/util/circuitbreaker/zz_verif_c08_hook.go": "harness/circuitbreaker/zz_verif_c08_hook.go"}),
 ]
-GROUPS = {"cb": "check_cb", "wrap": "check_wrap", "pool": "check_pool", "lin": "check_lin", "race": "check_lin"}
-EXPLAIN = {"cb": "explain_cb", "wrap": "explain_wrap", "pool": "explain_pool", "lin": "explain_lin", "race": "explain_lin"}
+GROUPS = {"cb": "check_cb", "wrap": "check_wrapm", "pool": "check_poolm", "lin": "check_lin", "race": "check_lin"}
+EXPLAIN = {"cb": "explain_cb", "wrap": "explain_wrapm", "pool": "explain_poolm", "lin": "explain_lin", "race": "explain_lin"}
 CASES = {"quick": 1600, "thorough": 20000}
 RULE = ("cases: random policies (thresholds 1..100, count/time window 1..12, minimum 0..12, permitted 0..6, wait/maxWait/slow durations) "
         "x histories of acquire / record(success|failure|slow, own, stale or foreign id) / clock advance (none, sub-second, second "
@@ -124,16 +125,18 @@ def encode(c):
         for cl in i["calls"] or []:
             now += cl["dt"]
             calls.append(T(Z(now), _HOUT[cl["h"]], _CX[cl.get("cx", 0)]))
-        return Rec(w_pol=_pol(i["pol"]), w_t0=Z(i["t0"]), w_calls=L(calls),
-                   w_obs=L([T(*[Z(x) for x in s]) for s in (o["calls"] or [])]))
+        return Rec(mw=Rec(w_pol=_pol(i["pol"]), w_t0=Z(i["t0"]), w_calls=L(calls),
+                          w_obs=L([T(*[Z(x) for x in s]) for s in (o["calls"] or [])])),
+                   mw_idx=L([Z(cl.get("w", 0)) for cl in i["calls"] or []]))
     if g == "pool":
         reqs, now = [], i["t0"]
         for rq in i["reqs"] or []:
             now += rq["dt"]
             reqs.append(T(Z(now), _backend(rq), B(rq.get("body", 0) >= 2), _CX[rq.get("cx", 0)]))
-        return Rec(q_pol=_pol(i["pol"]), q_t0=Z(i["t0"]), q_retry=Z(i.get("retry", 0)), q_reqs=L(reqs),
-                   q_obs=L([T(Z(s["status"]), S(s["result"]), Z(s["contacted"]), Z(s["state"]), Z(s["id"]), Z(s["total"]))
-                            for s in (o["reqs"] or [])]))
+        return Rec(mq=Rec(q_pol=_pol(i["pol"]), q_t0=Z(i["t0"]), q_retry=Z(i.get("retry", 0)), q_reqs=L(reqs),
+                          q_obs=L([T(Z(s["status"]), S(s["result"]), Z(s["contacted"]), Z(s["state"]), Z(s["id"]), Z(s["total"]))
+                                   for s in (o["reqs"] or [])])),
+                   mq_idx=L([Z(rq.get("p", 0)) for rq in i["reqs"] or []]))
     if g in ("lin", "race"):
         ops = []
         for op in o["ops"] or []:
